@@ -41,14 +41,24 @@ func init() {
 		rep, freq := time.Duration(atoi64(a[1])), time.Duration(atoi64(a[2]))
 		peak, sd := time.Duration(atoi64(a[3])), time.Duration(atoi64(a[4]))
 		var ws []float64
-		if a[5] != "-" {
-			for _, w := range strings.Split(a[5], ",") {
-				ws = append(ws, floatOfHex(w))
+		var rateFn func(time.Time) int
+		if strings.HasPrefix(a[5], "s:") { // the weights as a string, through the parser of CalculateGaussianRate
+			rates, err := gaussian.CalculateGaussianRate(vol, 0, rep, freq, peak, sd, unhex(a[5][2:]), "none")
+			if err != nil {
+				return "err"
 			}
-		}
-		calc, err := gaussian.NewCalculator(peak, sd, freq, ws, vol, rep)
-		if err != nil {
-			return "err"
+			rateFn = rates.Rate
+		} else {
+			if a[5] != "-" {
+				for _, w := range strings.Split(a[5], ",") {
+					ws = append(ws, floatOfHex(w))
+				}
+			}
+			calc, err := gaussian.NewCalculator(peak, sd, freq, ws, vol, rep)
+			if err != nil {
+				return "err"
+			}
+			rateFn = calc.For
 		}
 		dist, err := igauss.NewDistribution(float64(peak), float64(sd))
 		if err != nil {
@@ -60,7 +70,7 @@ func init() {
 		pdfs := make([]string, n)
 		for k := 0; k < n; k++ {
 			t := start.Add(time.Duration(k) * freq)
-			outs[k] = calc.For(t)
+			outs[k] = rateFn(t)
 			pdfs[k] = floatHex(dist.PDF(float64(t.Sub(t.Truncate(rep)))))
 		}
 		p := "-"
